@@ -489,6 +489,12 @@ def oracle_barrier(sc, res):
 ORACLES = (oracle_barrier,)
 
 
+def closed_prefill(sc):
+    spec, extra, _ = unfold(sc['bprogram'])
+    pre = set(sc.get('prefill', []))
+    return all(X.task_deps_spec(spec['tasks'][i]) <= pre for i in pre)
+
+
 # ================================================================ batch
 def replay_obj(sc, res, extra):
     sc2 = copy.deepcopy(sc)
@@ -531,6 +537,7 @@ class BBatch:
         ck.count('exec-barrier: %d workers' % sum(len(ph['workers']) for ph in sc['phases']))
         ck.count('exec-barrier: %d barrier/bvalue statements' % nb)
         ck.count('exec-barrier: events', len(res.trace))
+        ck.count('exec-barrier: initial store %s' % ('empty' if not sc.get('prefill') else 'dependency-closed' if closed_prefill(sc) else 'with holes (an upstream result missing)'))
         ck.count('exec-barrier: reloads (jugfile loads beyond the first, all workers)',
                  sum(max(0, ks.count('build') - 1) for ks in res.kinds.values()))
         return res
@@ -584,15 +591,26 @@ def scenarios(ck, n):
         nt = len(spec['tasks'])
         nw = rng.randint(2, 4)
         r = rng.random()
-        if r < 0.6:
+        if r < 0.45:
             pre = []
-        elif r < 0.8:
+        elif r < 0.55:
             pre = X.closed_subset(rng, spec, 0.5)
-        else:
+        elif r < 0.7:
             pre = sorted(rng.sample(range(nt), rng.randint(1, nt)))      # NOT dependency-closed: an upstream result is missing
+        else:
+            holes = set(rng.sample(range(nt), rng.randint(1, min(2, nt))))     # a complete store that lost one or two results
+            pre = [i for i in range(nt) if i not in holes]
+        pol = X.gen_policy(rng, nw)
+        if rng.random() < 0.6:
+            # whoever executes one of the tasks in front of a barrier / bvalue is parked inside it while the others go on
+            marks = [k for k, st in enumerate(bspec['stmts']) if st[0] != 'task']
+            upto = sum(1 for st in bspec['stmts'][:marks[rng.randrange(len(marks))]] if st[0] == 'task') if marks else nt
+            cands = [i for i in range(max(1, upto)) if i not in pre] or [0]
+            pol = {'seed': rng.randrange(1 << 30), 'base': rng.choice(['random', 'rr']), 'flavour': 'stalled-task',
+                   'stall_task': [[rng.choice(['ret', 'ret', 'dump', 'start', 'unlock']), rng.choice(cands) + 1, rng.choice([60, 200, 600])]]}
         yield {'bprogram': bspec, 'backend': X.pick_backend(rng, (5, 2, 1, 2)), 'prefill': pre, 'keep_going': False, 'keep_failed': False,
                'phases': [{'workers': [{'nr_wait': rng.choice([1, 2, 3, 5]), 'unload': rng.random() < 0.3} for _ in range(nw)],
-                           'policy': X.gen_policy(rng, nw)}]}
+                           'policy': pol}]}
 
 
 def enumerate_small(ck, b, shape, max_preempt, max_runs):
@@ -629,7 +647,7 @@ def enumerate_small(ck, b, shape, max_preempt, max_runs):
 def tie(ck):
     """the additional tie section of C14: many workers x barrier phases"""
     b = BBatch(ck)
-    for sc in scenarios(ck, ck.n(70, 2500)):
+    for sc in scenarios(ck, ck.n(110, 2500)):
         res = b.run(sc)
         if res is not None and len(ck.samples) < 6 and len(res.trace) > 40 and not getattr(ck, '_eb_sampled', False):
             ck._eb_sampled = True
@@ -639,7 +657,7 @@ def tie(ck):
         enumerate_small(ck, b, 'b3', 2, 4000)
         enumerate_small(ck, b, 'bv3', 2, 4000)
     else:
-        enumerate_small(ck, b, 'b2', 2, 150)
+        enumerate_small(ck, b, 'b2', 2, 100)
     b.flush()
 
 
